@@ -176,6 +176,12 @@ struct OneShotSim : Sim {
 
         void op_keyexp(const Op &o, Env &e, RunResult &r)
         {
+                struct LS {
+                        Env &e;
+                        bool sv;
+                        ~LS() { e.legacy_api = sv; }
+                } ls{ e, e.legacy_api };
+                e.legacy_api = !g_force_family_api && ((o.a >> 15) & 3) == 0; // a quarter of the public-API calls use the deprecated twins
                 int k = (int) (o.a % 3), kf = (int) ((o.a >> 2) & 1), api = (int) ((o.a >> 3) % 3);
                 if (g_force_family_api && api == 1)
                         api = 0;
@@ -233,6 +239,12 @@ struct OneShotSim : Sim {
 
         void op_cbc(const Op &o, Env &e, RunResult &r)
         {
+                struct LS {
+                        Env &e;
+                        bool sv;
+                        ~LS() { e.legacy_api = sv; }
+                } ls{ e, e.legacy_api };
+                e.legacy_api = !g_force_family_api && ((o.a >> 15) & 3) == 0; // a quarter of the public-API calls use the deprecated twins
                 int k = (int) (o.a % 3), ef = (int) ((o.a >> 2) % 2), df = (int) ((o.a >> 3) % 3), api = g_force_family_api ? 0 : (int) ((o.a >> 5) % 2), inplace = (int) ((o.a >> 6) % 2);
                 size_t len = len_class(OK_CBC, o.b);
                 uint8_t *key = e.mem.alloc(KB[k], 1, END_FLUSH, nullptr, "raw key", R_INPUT);
@@ -312,6 +324,12 @@ struct OneShotSim : Sim {
 
         void op_xts(const Op &o, Env &e, RunResult &r)
         {
+                struct LS {
+                        Env &e;
+                        bool sv;
+                        ~LS() { e.legacy_api = sv; }
+                } ls{ e, e.legacy_api };
+                e.legacy_api = !g_force_family_api && ((o.a >> 15) & 3) == 0; // a quarter of the public-API calls use the deprecated twins
                 int ks = (int) (o.a % 2), f = (int) ((o.a >> 1) % 3), ex = (int) ((o.a >> 3) % 2), api = g_force_family_api ? 0 : (int) ((o.a >> 4) % 2), inplace = (int) ((o.a >> 5) % 2);
                 int k = ks ? 2 : 0;
                 size_t len = len_class(OK_XTS, o.b);
@@ -388,6 +406,12 @@ struct OneShotSim : Sim {
 
         void op_gcm(const Op &o, Env &e, RunResult &r)
         {
+                struct LS {
+                        Env &e;
+                        bool sv;
+                        ~LS() { e.legacy_api = sv; }
+                } ls{ e, e.legacy_api };
+                e.legacy_api = !g_force_family_api && ((o.a >> 15) & 3) == 0; // a quarter of the public-API calls use the deprecated twins
                 int ks = (int) (o.a % 2), f = (int) ((o.a >> 1) % 4), nt = (int) ((o.a >> 3) % 4 == 0), api = g_force_family_api ? 0 : (int) ((o.a >> 5) % 2), inplace = (int) ((o.a >> 6) % 2);
                 int k = ks ? 2 : 0;
                 int bits = BITS[k];
